@@ -1,6 +1,7 @@
 // C08: transposition table never returns mixed or out-of-range data.
 //  slots : 2-3 threads x 1-2 operations on one 4-slot bucket of the real TranspositionTable; ALL sequentially consistent
 //          interleavings of the atomic loads/stores (fiber scheduler, state caching, no preemption bound)
+//  weak  : relaxed-memory over-approximation: every per-word mixture of values ever stored by a writers-only program, real probe on each
 //  ply   : setScore(s,p)/getScore(p') for every s, p, p'
 //  index : getIndex stays inside the used part for every configurable size x key prefixes (arithmetic sweep), and for really
 //          allocated tables with a resident on-demand tablebase (real reSize + updateTB): index range + tablebase bytes untouched
@@ -127,6 +128,101 @@ static void slots(int nThreads, int opsPerThread, int initKind, long maxSched) {
     }
 }
 
+// ---------------------------------------------------------------- weak memory (relaxed accesses): per-location product
+// The slot words are written and read with memory_order_relaxed, so a probe may combine, for every word separately, ANY value that
+// some writer stored there (per-location coherence is all the C++ model guarantees for a single relaxed load). Model: the set of values
+// each of the 8 words of the bucket ever holds during ALL interleavings of a writers-only program (collected from the real inserts
+// under the fiber explorer); every element of the product of these sets is installed in the bucket and the real probe is run on it.
+static bool recMatches(const TT::TTEntry& e, const Rec& r, const std::vector<Rec>& all) {
+    if (e.getKey() != r.key) return false;
+    if (e.getScore(0) != r.score || e.getDepth() != r.depth || e.getType() != r.type || e.getEvalScore() != r.eval) return false;
+    Move m; e.getMove(m);
+    if (r.move != 0) return (int)m.getCompressedMove() == r.move;
+    if (m.getCompressedMove() == 0) return true;
+    for (auto& o : all) if (o.key == r.key && o.move == (int)m.getCompressedMove()) return true;
+    return false;
+}
+
+static void weakProduct(int nThreads, int opsPerThread, int initKind, long maxCombos) {
+    const U64 K[3] = {0x1234000000100040ULL, 0x1234000000200040ULL, 0x1234000000300040ULL};
+    TT tt(512);
+    std::vector<Rec> alpha;
+    int recNo = 0;
+    auto mkRec = [&](int ki) { recNo++; return Rec{K[ki], 100 + recNo * 7, 10 * recNo + ki, 3 + recNo % 5, 1 + recNo % 3, -50 + recNo}; };
+    alpha.push_back(mkRec(0)); alpha.push_back(mkRec(1)); alpha.push_back(mkRec(2)); alpha.push_back(mkRec(0));
+    alpha.push_back(Rec{K[0], 0, 77, 9, TType::T_EXACT, 5});
+    int nOps = nThreads * opsPerThread;
+    std::vector<int> sel(nOps, 0);
+    unsigned long long progId = 0;
+    while (true) {
+        bool canon = true;
+        for (int t = 1; t < nThreads && canon; t++) {
+            std::vector<int> a(sel.begin() + (t - 1) * opsPerThread, sel.begin() + t * opsPerThread), b(sel.begin() + t * opsPerThread, sel.begin() + (t + 1) * opsPerThread);
+            if (b < a) canon = false;
+        }
+        if (canon && W->mine(progId++)) {
+            std::vector<Rec> initial;
+            std::set<U64> vals[8];
+            size_t idx = tt.getIndex(K[0]);
+            fib::Explorer ex;
+            ex.setup = [&]() {
+                tt.clear(); initial.clear();
+                if (initKind == 1) { for (int i = 0; i < 4; i++) { Rec r{0x1234000000000040ULL + ((U64)(i + 8) << 20), 900 + i, 500 + i, 4, TType::T_GE, i}; Move m; m.setFromCompressed((U16)r.move); m.setScore(r.score); tt.insert(r.key, m, r.type, 0, r.depth, r.eval); initial.push_back(r); } }
+                else if (initKind == 2) { Rec r{K[0], 321, 42, 6, TType::T_EXACT, 11}; Move m; m.setFromCompressed((U16)r.move); m.setScore(r.score); tt.insert(r.key, m, r.type, 0, r.depth, r.eval); initial.push_back(r); tt.nextGeneration(); }
+                std::vector<std::function<void()>> bodies;
+                for (int t = 0; t < nThreads; t++) bodies.push_back([&, t]() {
+                    for (int j = 0; j < opsPerThread; j++) { const Rec& r = alpha[sel[t * opsPerThread + j]]; Move m; m.setFromCompressed((U16)r.move); m.setScore(r.score); tt.insert(r.key, m, r.type, 0, r.depth, r.eval); }
+                });
+                return bodies;
+            };
+            ex.sharedState = [&]() {
+                std::string s; s.resize(64);
+                for (int i = 0; i < 4; i++) { U64 a = tt.table[idx + i].key.v.load(), b = tt.table[idx + i].data.v.load(); memcpy(&s[i * 16], &a, 8); memcpy(&s[i * 16 + 8], &b, 8); vals[2 * i].insert(a); vals[2 * i + 1].insert(b); }
+                return s;
+            };
+            ex.atEnd = [&](const std::vector<int>&) { ex.sharedState(); };
+            ex.explore();
+            std::vector<Rec> all = initial; for (int x : sel) all.push_back(alpha[x]);
+            std::vector<std::vector<U64>> v(8); double prod = 1; for (int i = 0; i < 8; i++) { v[i].assign(vals[i].begin(), vals[i].end()); prod *= (double)v[i].size(); }
+            R.count("programs"); R.count("transitions", (long long)ex.transitions); R.maxOf("max_product", (long long)prod);
+            std::string progStr; for (int i = 0; i < nOps; i++) { progStr += (i % opsPerThread == 0 ? " T" + std::to_string(i / opsPerThread) + ":" : ","); progStr += "I" + std::to_string(sel[i]); }
+            if (maxCombos && prod > (double)maxCombos) { R.exhaustive = false; R.count("capped_programs"); }
+            else {
+                std::vector<size_t> c(8, 0);
+                while (true) {
+                    int mixed = 0;
+                    for (int i = 0; i < 4; i++) { tt.table[idx + i].key.v.store(v[2 * i][c[2 * i]]); tt.table[idx + i].data.v.store(v[2 * i + 1][c[2 * i + 1]]); }
+                    U64 snap[8]; for (int i = 0; i < 4; i++) { snap[2 * i] = v[2 * i][c[2 * i]]; snap[2 * i + 1] = v[2 * i + 1][c[2 * i + 1]]; }
+                    for (int ki = 0; ki < 3; ki++) {
+                        for (int i = 0; i < 4; i++) { tt.table[idx + i].key.v.store(snap[2 * i]); tt.table[idx + i].data.v.store(snap[2 * i + 1]); }   // a probe may refresh the generation
+                        TT::TTEntry e; tt.probe(K[ki], e);
+                        R.count("states");
+                        if (e.getType() == TType::T_EMPTY) { R.count("probe_misses"); continue; }
+                        R.count("probe_hits");
+                        bool ok = false; for (auto& r : all) if (r.key == K[ki] && recMatches(e, r, all)) ok = true;
+                        if (!ok) {
+                            Move m; e.getMove(m);
+                            std::string words; for (int i = 0; i < 8; i++) { char b[24]; snprintf(b, sizeof b, "%016llx ", (unsigned long long)snap[i]); words += b; }
+                            R.violation("probe-returned-record-never-stored:relaxed-mixture", "writers" + progStr + " init" + std::to_string(initKind) + " bucket words " + words + " probe K" + std::to_string(ki) +
+                                        " got m" + std::to_string(m.getCompressedMove()) + " s" + std::to_string(e.getScore(0)) + " d" + std::to_string(e.getDepth()) + " t" + std::to_string(e.getType()) + " e" + std::to_string(e.getEvalScore()),
+                                        "{\"kind\":\"input\",\"prog\":\"" + progStr + "\",\"words\":\"" + words + "\"}");
+                        }
+                    }
+                    (void)mixed;
+                    int k = 7; while (k >= 0 && ++c[(size_t)k] == v[(size_t)k].size()) { c[(size_t)k] = 0; k--; }
+                    if (k < 0) break;
+                }
+                R.count("nontrivial", (long long)prod);
+            }
+            if (R.samples.size() < 3) R.sampleStr("writers" + progStr + " init" + std::to_string(initKind) + " per-word value counts " + [&]() { std::string t; for (int i = 0; i < 8; i++) t += std::to_string(v[i].size()) + " "; return t; }());
+            if (W->dl.hit()) { R.exhaustive = false; return; }
+        }
+        int k = nOps - 1;
+        while (k >= 0 && ++sel[k] == (int)alpha.size()) { sel[k] = 0; k--; }
+        if (k < 0) break;
+    }
+}
+
 // ---------------------------------------------------------------- ply shift
 static void plyShift() {
     unsigned long long id = 0;
@@ -237,6 +333,7 @@ int main(int argc, char** argv) {
     bool thorough = w.args.get("tier", "quick") == "thorough";
     if (w.args.has("replay")) { fprintf(stderr, "replay: re-run the part; programs and schedules are deterministic\n"); w.finish(R); return 0; }
     if (part == "slots") slots((int)w.args.getInt("threads", 2), (int)w.args.getInt("ops", 2), (int)w.args.getInt("init", 0), w.args.getInt("maxsched", 0));
+    else if (part == "weak") weakProduct((int)w.args.getInt("threads", 2), (int)w.args.getInt("ops", 2), (int)w.args.getInt("init", 0), w.args.getInt("maxcombos", 4000000));
     else if (part == "ply") plyShift();
     else if (part == "index") indexSweep(thorough);
     else if (part == "real") {
